@@ -810,6 +810,10 @@ def run_chain_oracle(inp):
                 break
             if multiple_pops(ref, starts, k, 150) > 150:
                 break
+            # add_edges tests `label in list` for each of the k-walks between two vertices: quadratic in their number
+            # (27 parallel labels after one multiple3 give 19683 walks in the next one) — keep the call within its time limit
+            if max((len(ref.lang(v, k)) for v in ref.V), default=0) > 600:
+                break
             with U.time_limit(MULT_SECONDS):
                 B = A.automaton_multiple(k)
             r2 = multiple_ref(ref, starts, k); st2 = list(starts)
